@@ -392,6 +392,7 @@ def handle (line : String) : String :=
      | .error e => s!"bad-op:{e}") ++ "\t-"
   | ["cost", world, impl] => doCost world impl
   | ["servetime", _, _] => "done\t-"
+  | ["rsastrip", _, impl] => (if impl.startsWith "skip:" then impl else "issued=true|altered=false") ++ "\t-"
   | ["delegwin", e, n, _, _, _] => (if e == "past" || n == "future" then "fail" else "ok") ++ "\t-"
   | ["clientexec", st, _] => (if st == "200" then "response" else "error") ++ "\t-"
   | ["rsatag", _, n, _] => (if n == "0" then "ok" else "err") ++ "\t-"
@@ -404,6 +405,7 @@ def handle (line : String) : String :=
   | ["wire", _, items, _] => doWire items
   | ["wire", _, _, _, impl] => s!"{impl}\t-"
   | ["cborblock", h, _, _] => doCborBlock h
+  | ["bsfresh", _, _, _, _, _, impl] => (if impl.startsWith "consistent:" then impl else "consistent") ++ "\t-"
   | ["bsconc", _, _, _, _, _, impl] => (if impl.startsWith "consistent:" then impl else "consistent") ++ "\t-"
   | ["req", _, impl] => (if impl.startsWith "status:" || impl == "error" || impl.startsWith "skip:" then impl else "status-or-error") ++ "\t-"
   | ["reqcraft", _, _, _, impl] => (if impl.startsWith "status:" || impl == "error" || impl.startsWith "skip:" then impl else "status-or-error") ++ "\t-"
@@ -411,6 +413,7 @@ def handle (line : String) : String :=
   | ["resp", _, _, _, _, impl] => (if impl == "response" || impl == "error" then impl else "response-or-error") ++ "\t-"
   | ["resp", _, _, _, impl] => (if impl == "response" || impl == "error" then impl else "response-or-error") ++ "\t-"
   | ["batch", mode, world, _, _, _, impl] => doServe mode world impl
+  | ["batchfresh", mode, world, _, _, _, impl] => doServe mode world impl
   | ["serve", mode, world, impl] => doServe mode world impl
   | ["serve3seq", mode, world, impl] => doServe mode world impl
   | ["access3", mode, world, spine, checker, _, impl] => doAccess mode world spine checker impl
